@@ -43,6 +43,7 @@ class Side:
         self.probe = None        # callable(builder, where) for C04
         self.fc = None
         self.on_query = None     # callable(kind, path, result)
+        self.behaviour = None    # {sid: value} appended to the function's result (C06: behaviour of a version)
 
 
 def _fc(side, name):
@@ -150,12 +151,21 @@ def _do_bf(b, st, side, sid):
         r = run_body(b2, body, side, sid)
         if mode == 'raise_before':
             raise Boom()
+        c = content
+        if opts.get('copy'):
+            # the output's content is the content of an input (read through the builder)
+            got = do_query(b2, side, 'read_h', w.p(opts['copy']))
+            r.append(got)
+            if not isinstance(got, str):
+                c = got
         if mode != 'no_create':
-            w.user_write(side.fs, fn, content)
+            w.user_write(side.fs, fn, c)
         if mode == 'raise_after':
             raise Boom()
         if mode == 'nonjson':
             return NotJson()
+        if side.behaviour is not None:
+            r.append(side.behaviour[sid])
         return r
 
     args = _args(opts, side, sid)
@@ -179,6 +189,8 @@ def _do_sb(b, st, side, sid):
         r = run_body(b2, body, side, sid)
         if mode == 'raise':
             raise Boom()
+        if side.behaviour is not None:
+            r.append(side.behaviour[sid])
         return r
 
     args = _args(opts, side, sid)
